@@ -1,19 +1,74 @@
 #!/usr/bin/env python3
 """Rebuilds seeded/index.json from the meta.json of every confirmed seeded change:
 one entry per (change, property whose check reports it), expecting the rules of that property
-that were observed to report it when the change was confirmed."""
-import json, glob, os
-out = []
+that were observed to report it when the change was confirmed.
+
+The thorough tier (T3) applies these patches to the CURRENT tree.  A rule of ANOTHER property may have
+reported a change only because the commit the change was written at still had a defect that has been
+repaired since (e.g. the change copies an unchecked use of a Get result next to the original one): such an
+entry is kept only if that rule also reports the change on the current tree.  Entries of the change's own
+property are never dropped: if its rule stops reporting the change, T3 must say so."""
+import json, glob, os, re, subprocess, tempfile, shutil, concurrent.futures as cf
+from collections import Counter
+for k in ("GOTOOLCHAIN", "GOFLAGS", "GOPROXY", "GOSUMDB"):
+    os.environ.pop(k, None)
+BIN = os.environ.get("BIN", "/verif/bin/electlint")
+norm = lambda k: re.sub(r"#\d+", "#", k)
+
+def alarms(d):
+    out = subprocess.run([BIN, "-p", "all", "-repo", d, "-no-evidence"], capture_output=True, text=True).stdout
+    keys = set()
+    for l in out.splitlines():
+        if l.startswith(("VIOLATION ", "UNDECIDED ")) and not l.startswith("VIOLATION property="):
+            parts = l.split(None, 2)
+            if len(parts) == 3:
+                keys.add(parts[2].strip())
+    return keys
+
+def scratch():
+    d = tempfile.mkdtemp(prefix="seedidx-")
+    subprocess.run("rsync -a --exclude .git /repo/ %s/r/ && cd %s/r && git init -q" % (d, d), shell=True, check=True)
+    return d
+
+d0 = scratch()
+BASE = alarms(d0 + "/r")
+shutil.rmtree(d0)
+CB = Counter(norm(k) for k in BASE)
+
+def current_rules(name):
+    """rules that report the change when its patch is applied to the current tree; None: does not apply"""
+    d = scratch()
+    try:
+        r = subprocess.run(["git", "-C", d + "/r", "apply", "--whitespace=nowarn", "/verif/seeded/%s/patch.diff" % name], capture_output=True)
+        if r.returncode != 0:
+            return None
+        got = alarms(d + "/r")
+        cg = Counter(norm(k) for k in got)
+        return set(k.split(" :: ")[0] for k in got - BASE if cg[norm(k)] > CB.get(norm(k), 0))
+    finally:
+        shutil.rmtree(d, ignore_errors=True)
+
+metas = []
 for meta in sorted(glob.glob('/verif/seeded/*/meta.json')):
-    d = os.path.dirname(meta)
-    name = os.path.basename(d)
     m = json.load(open(meta))
     conf = m.get('confirmed', {})
     if conf.get('unedited_suite_with_change') != 'pass' or conf.get('demo_with_change') != 'fail' or conf.get('demo_on_clean_tree') != 'pass':
         continue
+    metas.append((os.path.basename(os.path.dirname(meta)), m))
+need = [n for n, m in metas if any(p != m.get('property') for p in m.get('static_checks_reporting_it', []))]
+with cf.ThreadPoolExecutor(max_workers=8) as ex:
+    cur = dict(zip(need, ex.map(current_rules, need)))
+out, dropped = [], []
+for name, m in metas:
     rules = m.get('rules_reporting_it', [])
     for prop in m.get('static_checks_reporting_it', []):
         exp = sorted(r for r in rules if r.startswith(prop + '-'))
+        if prop != m.get('property') and cur.get(name) is not None:
+            keep = [r for r in exp if r in cur[name]]
+            if not keep:
+                dropped.append((name, prop, exp))
+                continue
+            exp = keep
         if not exp:
             continue
         out.append({'property': prop, 'name': 'seed-' + name, 'patch': 'seeded/%s/patch.diff' % name, 'expect': exp, 'mentions': '',
@@ -21,3 +76,5 @@ for meta in sorted(glob.glob('/verif/seeded/*/meta.json')):
                     'source': 'seeded/' + name})
 json.dump({'variants': out}, open('/verif/seeded/index.json', 'w'), indent=1)
 print(len(out), 'entries from', len(glob.glob('/verif/seeded/*/meta.json')), 'seeded changes')
+for d in dropped:
+    print('  not an entry (rule of another property, reports it only on the commit it was written at):', *d)
